@@ -63,6 +63,10 @@ func init() {
 		c11ReadIndex(c)
 		gQuorumJoint(c)
 	}})
+	register(&PropertyRule{ID: "C17", Explain: "structural necessary conditions of C17 (PreVote / CheckQuorum): see DESIGN.md §5 C17", Run: func(c *Check) {
+		c17Disruption(c)
+		gElect(c)
+	}})
 	register(&PropertyRule{ID: "C03", Explain: "structural necessary conditions of C03 (log matching): see DESIGN.md §5 C03", Run: func(c *Check) {
 		gTrunc(c)
 		gStable(c)
